@@ -56,6 +56,7 @@ def apply(ctx, W):
             ("res is Ok ==> all_resolved(&final(self).type_registry)", ("C10",), "no-type-left-out"),
             ("reg_wf(&final(self).type_registry)", ("C10",), "keeps-reg-wf"),
             ("keys_kept(&old(self).type_registry, &final(self).type_registry)", ("C10", "C14"), "keys-kept"),
+            ("items_kept(&old(self).type_registry, &final(self).type_registry)", ("C14", "C17"), "items-kept"),
             ("modules_frame(old(self).modules@, final(self).modules@)", ("C05", "C10", "C14", "C15"), "keeps-modules"),
             ("final(self).type_registry.pointer_size == old(self).type_registry.pointer_size", ("C10",), "keeps-pointer-size"),
         ])
@@ -63,6 +64,7 @@ def apply(ctx, W):
     common = [
         ("reg_wf(&self.type_registry)", ("C10",)),
         ("keys_kept(&old(self).type_registry, &self.type_registry)", ("C10", "C14")),
+        ("items_kept(&old(self).type_registry, &self.type_registry)", ("C14", "C17")),
         ("modules_frame(old(self).modules@, self.modules@)", ("C05", "C10", "C14", "C15")),
         ("self.type_registry.pointer_size == old(self).type_registry.pointer_size", ("C10",)),
     ]
@@ -101,6 +103,7 @@ def apply(ctx, W):
         ensures=[
             ("res is Ok ==> all_resolved(&res->Ok_0.type_registry)", ("C10",), "build-no-type-left-out"),
             ("res is Ok ==> keys_kept(&self.type_registry, &res->Ok_0.type_registry)", ("C10", "C14"), "build-keeps-items"),
+            ("res is Ok ==> items_kept(&self.type_registry, &res->Ok_0.type_registry)", ("C14", "C17"), "build-items-keep-path-visibility-category"),
             ("res is Ok ==> res->Ok_0.type_registry.pointer_size == self.type_registry.pointer_size", ("C10",), "build-keeps-pointer-size"),
             ("res is Ok ==> modules_defs_kept(self.modules@, res->Ok_0.modules@)", ("C14", "C10"), "build-module-definitions"),
             ("res is Ok ==> modules_externs_built(&res->Ok_0.type_registry, self.modules@, res->Ok_0.modules@)", ("C10", "C15"), "build-module-extern-values"),
